@@ -71,3 +71,32 @@ func stubPebbleReset(b *pebble.Batch)                                           
 func VerifH_C17_a_pebble() {
 	checkPendingTracking(&batch{b: new(pebble.Batch), db: &Database{}}, 3)
 }
+
+// H-C17-c-pebble: the iteration upper bound pebble is given for a prefix is exact: for every prefix
+// of 0..2 bytes and every key of 0..3 bytes, a key carrying the prefix is below the bound, and a key
+// at or above the prefix and below the bound carries the prefix (so prefix iteration returns exactly
+// the live keys with the prefix, as on the other backends). A nil bound means "no upper limit" and
+// is returned exactly when the prefix is empty or all 0xff.
+func VerifH_C17_c_pebble() {
+	prefix := vBytes("prefix", vLen("prefixLen", 2))
+	key := vBytes("key", vLen("keyLen", 3))
+	bound := upperBound(prefix)
+	vReach("bounded")
+	allFF := true
+	for _, b := range prefix {
+		if b != 0xff {
+			allFF = false
+		}
+	}
+	vAssert("bound/nil-iff-no-upper-limit", (bound == nil) == allFF)
+	has := bytes.HasPrefix(key, prefix)
+	if bound == nil {
+		return
+	}
+	if has {
+		vAssert("bound/covers-every-prefixed-key", bytes.Compare(key, bound) < 0)
+	}
+	if bytes.Compare(key, prefix) >= 0 && bytes.Compare(key, bound) < 0 {
+		vAssert("bound/admits-only-prefixed-keys", has)
+	}
+}
